@@ -35,15 +35,35 @@ pub enum Timestamp {
     FractionalSeconds(f64),
 }
 
-impl AsCborValue for Timestamp {
-    fn from_cbor_value(value: Value) -> Result<Self, CoseError> {
+«use crate::vprelude::*;
+use crate::common::{regp_of, regp_cv, wf_regp, axiom_derived_clone_regp};
+pub open spec fn ts_of(v: Value) -> Option<Timestamp> {
+    match v {
+        Value::Integer(i) => if in_i64(int_val(i)) { Some(Timestamp::WholeSeconds(int_val(i) as i64)) } else { None },
+        Value::Float(f) => Some(Timestamp::FractionalSeconds(f)),
+        _ => None,
+    }
+}
+pub open spec fn ts_cv(t: Timestamp) -> CV { match t { Timestamp::WholeSeconds(i) => CV::Int(i as int), Timestamp::FractionalSeconds(f) => CV::Float(f) } }
+»
+impl AsCborValue for Timestamp {«
+    open spec fn dec_rel(value: Value, r: crate::Result<Self>) -> bool {
+        match ts_of(value) {
+            Some(t) => r == Ok::<Timestamp, CoseError>(t),
+            None => r matches Err(e) && (if value is Integer { e is OutOfRangeIntegerValue } else { e is UnexpectedItem }),
+        }
+    }
+    open spec fn enc_rel(self, r: crate::Result<Value>) -> bool { r matches Ok(v) && vv(v) == ts_cv(self) && ts_of(v) == Some(self) }»
+    fn from_cbor_value(value: Value) -> Result<Self, CoseError> {«
+        broadcast use axiom_question_mark_uses_from;»
         match value {
             Value::Integer(i) => Ok(Timestamp::WholeSeconds(i.try_into()?)),
             Value::Float(f) => Ok(Timestamp::FractionalSeconds(f)),
             _ => cbor_type_error(&value, "int/float"),
         }
     }
-    fn to_cbor_value(self) -> Result<Value, CoseError> {
+    fn to_cbor_value(self) -> Result<Value, CoseError> {«
+        proof { reveal_with_fuel(vv, 2); }»
         Ok(match self {
             Timestamp::WholeSeconds(t) => Value::Integer(t.into()),
             Timestamp::FractionalSeconds(f) => Value::Float(f),
@@ -86,22 +106,192 @@ const NBF: ClaimName = ClaimName::Assigned(iana::CwtClaimName::Nbf);
 const IAT: ClaimName = ClaimName::Assigned(iana::CwtClaimName::Iat);
 const CTI: ClaimName = ClaimName::Assigned(iana::CwtClaimName::Cti);
 
-impl AsCborValue for ClaimsSet {
-    fn from_cbor_value(value: Value) -> Result<Self, CoseError> {
+«pub open spec fn cn_of(v: Value) -> Option<ClaimName> { regp_of::<iana::CwtClaimName>(v) }
+pub open spec fn cn(c: iana::CwtClaimName) -> ClaimName { ClaimName::Assigned(c) }
+pub open spec fn is_typed_claim(n: ClaimName) -> bool {
+    n == cn(iana::CwtClaimName::Iss) || n == cn(iana::CwtClaimName::Sub) || n == cn(iana::CwtClaimName::Aud) || n == cn(iana::CwtClaimName::Exp)
+    || n == cn(iana::CwtClaimName::Nbf) || n == cn(iana::CwtClaimName::Iat) || n == cn(iana::CwtClaimName::Cti)
+}
+/// CWT claims set (RFC 8392 section 3): claim-name typing of one pair
+pub open spec fn claim_pair_ok(k: Value, v: Value) -> bool {
+    cn_of(k) matches Some(n) && (
+        if n == cn(iana::CwtClaimName::Iss) || n == cn(iana::CwtClaimName::Sub) || n == cn(iana::CwtClaimName::Aud) { v is Text }
+        else if n == cn(iana::CwtClaimName::Exp) || n == cn(iana::CwtClaimName::Nbf) || n == cn(iana::CwtClaimName::Iat) { ts_of(v) is Some }
+        else if n == cn(iana::CwtClaimName::Cti) { v is Bytes }
+        else { true })
+}
+pub open spec fn has_claim(m: Seq<(Value, Value)>, n: int, c: ClaimName) -> bool {
+    exists |i: int| 0 <= i < n && #[trigger] cn_of(m[i].0) == Some(c)
+}
+pub open spec fn claims_distinct(m: Seq<(Value, Value)>) -> bool {
+    forall |i: int, j: int| 0 <= i < j < m.len() ==> #[trigger] cn_of(m[i].0) != #[trigger] cn_of(m[j].0)
+}
+pub open spec fn claims_ok(v: Value) -> bool {
+    v is Map && (forall |i: int| 0 <= i < map_of(v).len() ==> claim_pair_ok(#[trigger] map_of(v)[i].0, map_of(v)[i].1)) && claims_distinct(map_of(v))
+}
+pub open spec fn claims_rest_of(m: Seq<(Value, Value)>) -> Seq<(ClaimName, Value)>
+    decreases m.len()
+{
+    if m.len() == 0 { Seq::empty() } else {
+        let p = claims_rest_of(m.drop_last());
+        match cn_of(m.last().0) {
+            Some(n) => if is_typed_claim(n) { p } else { p.push((n, m.last().1)) },
+            None => p,
+        }
+    }
+}
+/// field mapping for the first n pairs
+pub open spec fn claims_inv(c: ClaimsSet, m: Seq<(Value, Value)>, n: int) -> bool {
+    (forall |i: int| 0 <= i < n && #[trigger] cn_of(m[i].0) == Some(cn(iana::CwtClaimName::Iss)) ==> (c.issuer matches Some(t) && m[i].1 == Value::Text(t)))
+    && (!has_claim(m, n, cn(iana::CwtClaimName::Iss)) ==> c.issuer is None)
+    && (forall |i: int| 0 <= i < n && #[trigger] cn_of(m[i].0) == Some(cn(iana::CwtClaimName::Sub)) ==> (c.subject matches Some(t) && m[i].1 == Value::Text(t)))
+    && (!has_claim(m, n, cn(iana::CwtClaimName::Sub)) ==> c.subject is None)
+    && (forall |i: int| 0 <= i < n && #[trigger] cn_of(m[i].0) == Some(cn(iana::CwtClaimName::Aud)) ==> (c.audience matches Some(t) && m[i].1 == Value::Text(t)))
+    && (!has_claim(m, n, cn(iana::CwtClaimName::Aud)) ==> c.audience is None)
+    && (forall |i: int| 0 <= i < n && #[trigger] cn_of(m[i].0) == Some(cn(iana::CwtClaimName::Exp)) ==> (c.expiration_time is Some && c.expiration_time == ts_of(m[i].1)))
+    && (!has_claim(m, n, cn(iana::CwtClaimName::Exp)) ==> c.expiration_time is None)
+    && (forall |i: int| 0 <= i < n && #[trigger] cn_of(m[i].0) == Some(cn(iana::CwtClaimName::Nbf)) ==> (c.not_before is Some && c.not_before == ts_of(m[i].1)))
+    && (!has_claim(m, n, cn(iana::CwtClaimName::Nbf)) ==> c.not_before is None)
+    && (forall |i: int| 0 <= i < n && #[trigger] cn_of(m[i].0) == Some(cn(iana::CwtClaimName::Iat)) ==> (c.issued_at is Some && c.issued_at == ts_of(m[i].1)))
+    && (!has_claim(m, n, cn(iana::CwtClaimName::Iat)) ==> c.issued_at is None)
+    && (forall |i: int| 0 <= i < n && #[trigger] cn_of(m[i].0) == Some(cn(iana::CwtClaimName::Cti)) ==> (c.cwt_id matches Some(b) && m[i].1 == Value::Bytes(b)))
+    && (!has_claim(m, n, cn(iana::CwtClaimName::Cti)) ==> c.cwt_id is None)
+    && c.rest@ == claims_rest_of(m.subrange(0, n))
+}
+pub open spec fn claims_res(v: Value, c: ClaimsSet) -> bool { claims_inv(c, map_of(v), map_of(v).len() as int) }
+/// one loop iteration
+pub open spec fn claims_upd_ok(cp: ClaimsSet, c: ClaimsSet, k: Value, v: Value) -> bool {
+    cn_of(k) matches Some(n) && (
+        if n == cn(iana::CwtClaimName::Iss) { c == (ClaimsSet { issuer: c.issuer, ..cp }) && (c.issuer matches Some(t) && v == Value::Text(t)) }
+        else if n == cn(iana::CwtClaimName::Sub) { c == (ClaimsSet { subject: c.subject, ..cp }) && (c.subject matches Some(t) && v == Value::Text(t)) }
+        else if n == cn(iana::CwtClaimName::Aud) { c == (ClaimsSet { audience: c.audience, ..cp }) && (c.audience matches Some(t) && v == Value::Text(t)) }
+        else if n == cn(iana::CwtClaimName::Exp) { c == (ClaimsSet { expiration_time: c.expiration_time, ..cp }) && c.expiration_time is Some && c.expiration_time == ts_of(v) }
+        else if n == cn(iana::CwtClaimName::Nbf) { c == (ClaimsSet { not_before: c.not_before, ..cp }) && c.not_before is Some && c.not_before == ts_of(v) }
+        else if n == cn(iana::CwtClaimName::Iat) { c == (ClaimsSet { issued_at: c.issued_at, ..cp }) && c.issued_at is Some && c.issued_at == ts_of(v) }
+        else if n == cn(iana::CwtClaimName::Cti) { c == (ClaimsSet { cwt_id: c.cwt_id, ..cp }) && (c.cwt_id matches Some(b) && v == Value::Bytes(b)) }
+        else { c == (ClaimsSet { rest: c.rest, ..cp }) && c.rest@ == cp.rest@.push((n, v)) })
+}
+pub proof fn lemma_claims_inv_init(c: ClaimsSet, m: Seq<(Value, Value)>)
+    requires c.is_default(),
+    ensures claims_inv(c, m, 0),
+{
+    assert(m.subrange(0, 0) =~= Seq::<(Value, Value)>::empty());
+    assert(claims_rest_of(m.subrange(0, 0)) =~= Seq::<(ClaimName, Value)>::empty());
+    assert(c.rest@ =~= Seq::<(ClaimName, Value)>::empty());
+}
+pub proof fn lemma_claims_inv_step(cp: ClaimsSet, c: ClaimsSet, m: Seq<(Value, Value)>, n: int)
+    requires
+        0 <= n < m.len(), claims_inv(cp, m, n),
+        cn_of(m[n].0) matches Some(l) && !has_claim(m, n, l),
+        claims_upd_ok(cp, c, m[n].0, m[n].1),
+    ensures claims_inv(c, m, n + 1),
+{
+    let l = cn_of(m[n].0)->0;
+    assert(m.subrange(0, n + 1).drop_last() =~= m.subrange(0, n));
+    assert(m.subrange(0, n + 1).last() == m[n]);
+    assert forall |x: ClaimName| has_claim(m, n + 1, x) <==> (has_claim(m, n, x) || x == l) by {
+        if has_claim(m, n + 1, x) { let i = choose |i: int| 0 <= i < n + 1 && #[trigger] cn_of(m[i].0) == Some(x); if i < n { assert(has_claim(m, n, x)); } }
+        if has_claim(m, n, x) { let i = choose |i: int| 0 <= i < n && #[trigger] cn_of(m[i].0) == Some(x); assert(has_claim(m, n + 1, x)); }
+        if x == l { assert(has_claim(m, n + 1, x)); }
+    }
+    assert forall |i: int| 0 <= i < n implies #[trigger] cn_of(m[i].0) != Some(l) by {
+        if cn_of(m[i].0) == Some(l) { assert(has_claim(m, n, l)); }
+    }
+}
+»
+«// ---- what a claims set encodes to
+pub open spec fn claim_present(c: ClaimsSet, k: int) -> bool {
+    if k == 1 { c.issuer is Some } else if k == 2 { c.subject is Some } else if k == 3 { c.audience is Some } else if k == 4 { c.expiration_time is Some }
+    else if k == 5 { c.not_before is Some } else if k == 6 { c.issued_at is Some } else if k == 7 { c.cwt_id is Some } else { false }
+}
+pub open spec fn claim_val(c: ClaimsSet, k: int) -> CV {
+    if k == 1 { CV::Text(c.issuer->0@) } else if k == 2 { CV::Text(c.subject->0@) } else if k == 3 { CV::Text(c.audience->0@) }
+    else if k == 4 { ts_cv(c.expiration_time->0) } else if k == 5 { ts_cv(c.not_before->0) } else if k == 6 { ts_cv(c.issued_at->0) }
+    else if k == 7 { CV::Bytes(c.cwt_id->0@) } else { CV::Null }
+}
+pub open spec fn claim_entry(c: ClaimsSet, k: int) -> Seq<(CV, CV)> {
+    if claim_present(c, k) { seq![(CV::Int(k), claim_val(c, k))] } else { Seq::<(CV, CV)>::empty() }
+}
+#[verifier::opaque]
+pub open spec fn claims_typed_prefix(c: ClaimsSet, k: int) -> Seq<(CV, CV)>
+    decreases k
+{ if k <= 0 { Seq::<(CV, CV)>::empty() } else { claims_typed_prefix(c, k - 1) + claim_entry(c, k) } }
+#[verifier::opaque]
+pub open spec fn claims_rest_entries(r: Seq<(ClaimName, Value)>) -> Seq<(CV, CV)> { Seq::new(r.len(), |i: int| (regp_cv(r[i].0), vv(r[i].1))) }
+pub open spec fn claims_cv(c: ClaimsSet) -> CV { CV::Map(claims_typed_prefix(c, 7) + claims_rest_entries(c.rest@)) }
+pub proof fn lemma_claims_step(c: ClaimsSet, k: int, old: Seq<(Value, Value)>, key: Value, val: Value)
+    requires 1 <= k <= 7, vv_pairs(old) == claims_typed_prefix(c, k - 1), claim_present(c, k), vv(key) == CV::Int(k), vv(val) == claim_val(c, k),
+    ensures vv_pairs(old.push((key, val))) == claims_typed_prefix(c, k),
+{
+    reveal_with_fuel(claims_typed_prefix, 1);
+    assert(claims_typed_prefix(c, k) == claims_typed_prefix(c, k - 1) + claim_entry(c, k));
+    lemma_vv_pairs_push(old, (key, val));
+    assert(vv_pairs(old.push((key, val))) =~= claims_typed_prefix(c, k));
+}
+pub proof fn lemma_claims_skip(c: ClaimsSet, k: int, old: Seq<(Value, Value)>)
+    requires 1 <= k <= 7, vv_pairs(old) == claims_typed_prefix(c, k - 1), !claim_present(c, k),
+    ensures vv_pairs(old) == claims_typed_prefix(c, k),
+{
+    reveal_with_fuel(claims_typed_prefix, 1);
+    assert(claims_typed_prefix(c, k) =~= claims_typed_prefix(c, k - 1));
+}
+pub proof fn lemma_claims_start(c: ClaimsSet)
+    ensures vv_pairs(Seq::<(Value, Value)>::empty()) == claims_typed_prefix(c, 0),
+{ reveal_with_fuel(claims_typed_prefix, 1); lemma_vv_pairs_empty(); }
+pub proof fn lemma_claims_rest_push(r: Seq<(ClaimName, Value)>, n: int)
+    requires 0 <= n < r.len(),
+    ensures claims_rest_entries(r.subrange(0, n + 1)) == claims_rest_entries(r.subrange(0, n)).push((regp_cv(r[n].0), vv(r[n].1))),
+{ reveal(claims_rest_entries); assert(claims_rest_entries(r.subrange(0, n + 1)) =~= claims_rest_entries(r.subrange(0, n)).push((regp_cv(r[n].0), vv(r[n].1)))); }
+pub proof fn lemma_claims_rest_empty(r: Seq<(ClaimName, Value)>)
+    ensures claims_rest_entries(r.subrange(0, 0)) == Seq::<(CV, CV)>::empty(), r.subrange(0, r.len() as int) == r,
+{ reveal(claims_rest_entries); assert(claims_rest_entries(r.subrange(0, 0)) =~= Seq::<(CV, CV)>::empty()); assert(r.subrange(0, r.len() as int) =~= r); }
+»
+impl AsCborValue for ClaimsSet {«
+    // KNOWN FINDING (C12 encode): no duplicate check here; encoding always succeeds (pinned by cwt::tests::test_cwt_dup_claim)
+    open spec fn enc_rel(self, r: crate::Result<Value>) -> bool { r matches Ok(v) && vv(v) == claims_cv(self) }
+    open spec fn dec_rel(value: Value, r: crate::Result<Self>) -> bool { (r is Ok <==> claims_ok(value)) && (r matches Ok(c) ==> claims_res(value, c)) }
+    #[verifier::loop_isolation(false)]»
+    fn from_cbor_value(value: Value) -> Result<Self, CoseError> {«
+        broadcast use axiom_question_mark_uses_from;
+        let ghost val0 = value;»
         let m = match value {
             Value::Map(m) => m,
             v => return cbor_type_error(&v, "map"),
-        };
+        };«
+        let ghost ms = m@;»
 
         let mut claims = Self::default();
-        let mut seen = BTreeSet::new();
-        for (n, value) in m.into_iter() {
+        let mut seen = BTreeSet::new();«
+        proof { lemma_claims_inv_init(claims, ms); }»
+        for (n, value) in« it:» m.into_iter()«
+            invariant
+                0 <= it.index@ <= ms.len(),
+                forall |i: int| 0 <= i < it.index@ ==> claim_pair_ok(#[trigger] ms[i].0, ms[i].1),
+                claims_distinct(ms.subrange(0, it.index@)),
+                forall |x: ClaimName| seen@.contains(x) <==> has_claim(ms, it.index@, x),
+                forall |x: ClaimName| seen@.contains(x) ==> wf_regp(x),
+                claims_inv(claims, ms, it.index@),» {«
+            broadcast use axiom_derived_clone_regp;
+            let ghost k = it.index@;
+            let ghost v0 = value;
+            let ghost cp = claims;
+            proof {
+                assert(n == ms[k].0 && value == ms[k].1);
+                assert(claims_ok(val0) ==> claim_pair_ok(ms[k].0, ms[k].1));
+            }»
             // The `ciborium` CBOR library does not police duplicate map keys, so do it here.
-            let name = ClaimName::from_cbor_value(n)?;
-            if seen.contains(&name) {
+            let name = ClaimName::from_cbor_value(n)?;«
+            proof { assert(cn_of(ms[k].0) == Some(name)); assert(wf_regp(name)); }»
+            if crate::vprelude::regp_set_contains(&seen, &name) {«
+                proof {
+                    let i0 = choose |i: int| 0 <= i < k && #[trigger] cn_of(ms[i].0) == Some(name);
+                    assert(cn_of(ms[i0].0) == cn_of(ms[k].0));
+                    assert(!claims_distinct(ms));
+                }»
                 return Err(CoseError::DuplicateMapKey);
-            }
-            seen.insert(name.clone());
+            }«
+            proof { assert(!has_claim(ms, k, name)); }»
+            crate::vprelude::regp_set_insert(&mut seen, name.clone());
             match name {
                 x if x == ISS => claims.issuer = Some(value.try_as_string()?),
                 x if x == SUB => claims.subject = Some(value.try_as_string()?),
@@ -111,37 +301,91 @@ impl AsCborValue for ClaimsSet {
                 x if x == IAT => claims.issued_at = Some(Timestamp::from_cbor_value(value)?),
                 x if x == CTI => claims.cwt_id = Some(value.try_as_bytes()?),
                 name => claims.rest.push((name, value)),
-            }
-        }
+            }«
+            proof {
+                assert(claim_pair_ok(ms[k].0, ms[k].1));
+                assert(claims_upd_ok(cp, claims, ms[k].0, ms[k].1));
+                lemma_claims_inv_step(cp, claims, ms, k);
+                let s1 = ms.subrange(0, k + 1);
+                assert forall |i: int, j: int| 0 <= i < j < s1.len() implies #[trigger] cn_of(s1[i].0) != #[trigger] cn_of(s1[j].0) by {
+                    if j < k { assert(cn_of(ms.subrange(0, k)[i].0) != cn_of(ms.subrange(0, k)[j].0)); }
+                    else { if cn_of(ms[i].0) == Some(name) { assert(has_claim(ms, k, name)); assert(false); } }
+                }
+                assert forall |x: ClaimName| seen@.contains(x) <==> has_claim(ms, k + 1, x) by {
+                    if has_claim(ms, k + 1, x) { let i = choose |i: int| 0 <= i < k + 1 && #[trigger] cn_of(ms[i].0) == Some(x); if i < k { assert(has_claim(ms, k, x)); } }
+                    if has_claim(ms, k, x) { let i = choose |i: int| 0 <= i < k && #[trigger] cn_of(ms[i].0) == Some(x); assert(has_claim(ms, k + 1, x)); }
+                    if x == name { assert(has_claim(ms, k + 1, x)); }
+                }
+            }»
+        }«
+        proof { assert(ms.subrange(0, ms.len() as int) =~= ms); }»
         Ok(claims)
     }
 
-    fn to_cbor_value(self) -> Result<Value, CoseError> {
-        let mut map = Vec::new();
+    fn to_cbor_value(self) -> Result<Value, CoseError> {«
+        broadcast use axiom_question_mark_uses_from;
+        let ghost c0 = self;»
+        let mut map = Vec::new();«
+        let ghost m0 = map@;
+        proof { lemma_claims_start(c0); assert(m0 =~= Seq::<(Value, Value)>::empty()); }»
         if let Some(iss) = self.issuer {
-            map.push((ISS.to_cbor_value()?, Value::Text(iss)));
-        }
+            map.push((ISS.to_cbor_value()?, Value::Text(iss)));«
+            proof { lemma_claims_step(c0, 1, m0, map@.last().0, map@.last().1); }»
+        }«
+        let ghost m1 = map@;
+        proof { if !claim_present(c0, 1) { lemma_claims_skip(c0, 1, m0); } }»
         if let Some(sub) = self.subject {
-            map.push((SUB.to_cbor_value()?, Value::Text(sub)));
-        }
+            map.push((SUB.to_cbor_value()?, Value::Text(sub)));«
+            proof { lemma_claims_step(c0, 2, m1, map@.last().0, map@.last().1); }»
+        }«
+        let ghost m2 = map@;
+        proof { if !claim_present(c0, 2) { lemma_claims_skip(c0, 2, m1); } }»
         if let Some(aud) = self.audience {
-            map.push((AUD.to_cbor_value()?, Value::Text(aud)));
-        }
+            map.push((AUD.to_cbor_value()?, Value::Text(aud)));«
+            proof { lemma_claims_step(c0, 3, m2, map@.last().0, map@.last().1); }»
+        }«
+        let ghost m3 = map@;
+        proof { if !claim_present(c0, 3) { lemma_claims_skip(c0, 3, m2); } }»
         if let Some(exp) = self.expiration_time {
-            map.push((EXP.to_cbor_value()?, exp.to_cbor_value()?));
-        }
+            map.push((EXP.to_cbor_value()?, exp.to_cbor_value()?));«
+            proof { lemma_claims_step(c0, 4, m3, map@.last().0, map@.last().1); }»
+        }«
+        let ghost m4 = map@;
+        proof { if !claim_present(c0, 4) { lemma_claims_skip(c0, 4, m3); } }»
         if let Some(nbf) = self.not_before {
-            map.push((NBF.to_cbor_value()?, nbf.to_cbor_value()?));
-        }
+            map.push((NBF.to_cbor_value()?, nbf.to_cbor_value()?));«
+            proof { lemma_claims_step(c0, 5, m4, map@.last().0, map@.last().1); }»
+        }«
+        let ghost m5 = map@;
+        proof { if !claim_present(c0, 5) { lemma_claims_skip(c0, 5, m4); } }»
         if let Some(iat) = self.issued_at {
-            map.push((IAT.to_cbor_value()?, iat.to_cbor_value()?));
-        }
+            map.push((IAT.to_cbor_value()?, iat.to_cbor_value()?));«
+            proof { lemma_claims_step(c0, 6, m5, map@.last().0, map@.last().1); }»
+        }«
+        let ghost m6 = map@;
+        proof { if !claim_present(c0, 6) { lemma_claims_skip(c0, 6, m5); } }»
         if let Some(cti) = self.cwt_id {
-            map.push((CTI.to_cbor_value()?, Value::Bytes(cti)));
-        }
-        for (label, value) in self.rest {
-            map.push((label.to_cbor_value()?, value));
-        }
+            map.push((CTI.to_cbor_value()?, Value::Bytes(cti)));«
+            proof { lemma_claims_step(c0, 7, m6, map@.last().0, map@.last().1); }»
+        }«
+        let ghost rs = self.rest@;
+        proof { if !claim_present(c0, 7) { lemma_claims_skip(c0, 7, m6); } lemma_claims_rest_empty(rs); assert(vv_pairs(map@) =~= claims_typed_prefix(c0, 7) + claims_rest_entries(rs.subrange(0, 0))); }»
+        for (label, value) in« it:» self.rest«
+            invariant
+                c0 == self, rs == c0.rest@, rs == self.rest@, 0 <= it.index@ <= rs.len(),
+                vv_pairs(map@) == claims_typed_prefix(c0, 7) + claims_rest_entries(rs.subrange(0, it.index@)),» {«
+            broadcast use axiom_question_mark_uses_from;
+            let ghost n = it.index@;
+            let ghost map_pre = map@;
+            proof { assert(label == rs[n].0 && value == rs[n].1); }»
+            map.push((label.to_cbor_value()?, value));«
+            proof {
+                lemma_vv_pairs_push(map_pre, map@.last());
+                lemma_claims_rest_push(rs, n);
+                assert(vv_pairs(map@) =~= claims_typed_prefix(c0, 7) + claims_rest_entries(rs.subrange(0, n + 1)));
+            }»
+        }«
+        proof { lemma_claims_rest_empty(rs); lemma_vv_map(map); }»
         Ok(Value::Map(map))
     }
 }
